@@ -30,6 +30,8 @@ type Prog struct {
 	NFiles   int
 
 	goT     map[string]bool // lazily: functions started by go statements
+	eff     *effAnalysis    // lazily: E-DOM summaries
+	cg      *callGraph      // lazily: call graph for reachability
 	touched map[string]bool // when non-nil, records the functions rules ask for by name (mutation sweep anchors)
 }
 
